@@ -6,7 +6,8 @@ import json, os, shutil, subprocess, sys
 
 prop, src = sys.argv[1], sys.argv[2]
 checks = sys.argv[3:] or [prop]
-WT = "/tmp/confirm_wt"
+WT = os.environ.get("CONFIRM_WT", "/tmp/confirm_wt")
+VH = os.environ.get("CONFIRM_VERIF", "/verif")
 PY = "/venv/bin/python"
 SUITE = "cd %s && PYTHONPATH=%s %s -m pytest -q -p no:cacheprovider --timeout=900 --continue-on-collection-errors 2>&1 | tail -1"
 
@@ -41,7 +42,7 @@ for m in sorted(os.listdir(src)):
     if ok:
         # the checks run against the scratch worktree (VERIF_REPO), which still carries the patch: /repo is never touched
         for c in checks:
-            rc, out = sh("VERIF_REPO=%s /verif/bin/check %s --tier quick 2>/dev/null | grep -E 'VIOLATION|KNOWN-FINDING'" % (WT, c))
+            rc, out = sh("VERIF_REPO=%s %s/bin/check %s --tier quick 2>/dev/null | grep -E 'VIOLATION|KNOWN-FINDING'" % (WT, VH, c))
             caught[c] = out.strip().splitlines()
     sh("git -C /repo worktree remove --force %s; rm -rf %s" % (WT, WT))
     res["checks_run"] = caught
